@@ -2,10 +2,20 @@
 //! C22 (boundary constraints), C23 (transition divisors, degrees, periodic columns), C24 (seed
 //! binds the context), C25 (security estimates).
 
+mod c21;
+mod c22;
+mod c23;
+mod c24;
+mod util;
+
 fn main() {
     mck::install_panic_hook();
     let args = mck::Args::parse();
     match args.prop.as_str() {
+        "C21" => c21::run(&args),
+        "C22" => c22::run(&args),
+        "C23" => c23::run(&args),
+        "C24" => c24::run(&args),
         p => mck::report::machinery(&format!("h_air does not serve property {p:?}")),
     }
 }
